@@ -50,7 +50,10 @@ def cases(draw, tier="quick", frictionless=False):
     targets = draw(st.lists(w, min_size=n, max_size=n))
     moves = draw(st.lists(st.tuples(st.floats(0.8, 1.25), st.just(0.0) if frictionless else B.spreads()), min_size=n, max_size=n))
     h["final"] = {"targets": targets, "measure": measure, "dt": draw(st.integers(1, 10 ** 7)),
-                  "moves": [list(m) for m in moves], "cash_entry": draw(st.booleans())}
+                  "moves": [list(m) for m in moves], "cash_entry": draw(st.booleans()),
+                  "order": draw(st.permutations(list(range(n)))),
+                  # the last quotes may share one timestamp, with a valuation between them
+                  "same_time": draw(st.sampled_from([False, False, True])), "peek": draw(st.sampled_from([False, True]))}
     h["frictionless"] = frictionless
     return h
 
@@ -63,7 +66,11 @@ def run_target(case):
     led, br, n = lab.ledger, lab.broker, lab.n
     fin = case["final"]
     for i, (mv, sp) in enumerate(fin["moves"]):
-        lab.send_quote(i, min(max(lab.mid[i] * mv, 1e-3), 1e7), sp)
+        lab.send_quote(i, min(max(lab.mid[i] * mv, 1e-3), 1e7), sp, same_time=bool(fin.get("same_time")) and i > 0)
+        if fin.get("peek") and i == 0:
+            br.net_liquidation_value(raise_if_broke=False)
+    if fin.get("same_time"):
+        res.tag("last-quotes-share-a-timestamp")
     nlv0 = led.nlv()
     if not nlv0 > 1e-6 * led.scale():
         res.excluded = "insolvent-before-rebalance"
@@ -81,7 +88,7 @@ def run_target(case):
             targets[j] = 0.0
     q_before = list(led.q)
     held = [i for i in range(n) if q_before[i] != 0]
-    reb = lab.rebalancing(targets, fin["measure"], fin["dt"])
+    reb = lab.rebalancing(targets, fin["measure"], fin["dt"], order=fin.get("order"))
     if fin["cash_entry"] and fin["measure"] == "weight":
         # an explicit entry for the cash contract is legal and must be ignored
         cs = [lab.contracts[i] for i, w in enumerate(targets) if w is not None] + [lab.cash]
